@@ -585,7 +585,7 @@ pub fn property() -> Property {
             SubCheck { name: "short_strings", driver: Driver::Custom { run: str_driver }, check: str_check, configs: Configs::Both, required: &["coord_ok", "color_ok", "cell_ok", "rights_ok", "non_ascii"], regressions: &[], exhaustive: true },
             SubCheck {
                 name: "generated_strings",
-                driver: Driver::Generated { gen: gen_str_case, genome_len: 32, quick: 300_000, thorough: 20_000_000 },
+                driver: Driver::Generated { gen: gen_str_case, genome_len: 32, quick: 1_500_000, thorough: 40_000_000 },
                 check: str_check,
                 configs: Configs::ReleaseOnly,
                 required: &["coord_ok", "rights_ok"],
@@ -596,7 +596,7 @@ pub fn property() -> Property {
             SubCheck { name: "bitboard_bands", driver: Driver::Custom { run: band_driver }, check: bb_check, configs: Configs::Both, required: &[], regressions: &[], exhaustive: true },
             SubCheck {
                 name: "bitboard_random",
-                driver: Driver::Generated { gen: gen_bb_case, genome_len: 64, quick: 300_000, thorough: 20_000_000 },
+                driver: Driver::Generated { gen: gen_bb_case, genome_len: 64, quick: 1_500_000, thorough: 40_000_000 },
                 check: bb_check,
                 configs: Configs::Both,
                 required: &["two_or_more_elements"],
